@@ -17,8 +17,9 @@ cp "$patch" "$ROOT/seeded/$name/patch.diff"; cp "$demo" "$ROOT/seeded/$name/demo
 results=""
 sc=$(mktemp -d /tmp/seedsc-XXXX); cp -r /repo/tinyflux "$sc/tinyflux"; ( cd "$sc" && patch -p1 -s < "$patch" ) || { echo "cannot apply to scratch copy"; exit 3; }
 for p in "$@"; do
-  r=$(cd "$ROOT" && PYVC_REPO="$sc" ./check $p 2>&1 | grep -v WARNING | grep -E "^(VIOLATION|UNDECIDED|CHECKER|C[0-9]+ tier|  failed obligation|  bounded)" | head -12)
-  rc=$(echo "$r" | grep -c "^VIOLATION")
+  full=$(cd "$ROOT" && PYVC_REPO="$sc" ./check $p 2>&1 | grep -v WARNING)
+  rc=$(echo "$full" | grep -c "^VIOLATION")
+  r=$(echo "$full" | grep -E "^(VIOLATION|UNDECIDED|CHECKER|C[0-9]+ tier|  failed obligation|  bounded)" | head -12)
   echo "== $p: violations=$rc"; echo "$r" | cut -c1-220
   results="$results $p:$rc"
 done
